@@ -205,6 +205,20 @@ class SysEngine(MempoolEngine):
                 self.bump('step:reorg_same_height')
             else:
                 self.bump('reorg_skipped_inadmissible')
+        elif kind == 'same_switch':
+            # the daemon moves to an equal-height branch and gets txs that spend outputs existing only there; the index
+            # cannot follow (refreshes drop those txs) until the admin forces a reorg
+            d = op[1]
+            tip = w.fork(d, d, rng=rng, ntx=3)
+            if w.height() >= 2 * d + 2 and self.uw.admissible(tip, w.height() + 1):
+                w.switch_to(tip)
+                new_outs = [(t.hash, i) for b in tip.chain()[tip.height - d + 1:] for t in b.txs[1:] for i in range(len(t.outs))]
+                for _ in range(3):
+                    w.mempool_add(parent='confirmed', prefer=new_outs, n_in=1)
+                self.world_changed()
+                self.bump('step:same_height_switch_with_new_branch_spends')
+            else:
+                self.bump('reorg_skipped_inadmissible')
         elif kind == 'rpc_reorg':
             # only when the server is observed on the daemon's tip: a second forced reorg before the first has been
             # re-advanced would undo more than the window in total (generator artefact, not a property violation)
@@ -689,10 +703,15 @@ def gen_script(rng, n_events, nclients, nscripts, *, queries=True, forced=True):
         elif r < 0.52 and forced:
             script.append(('rpc_reorg', rng.randrange(0, 3)))
         elif r < 0.58 and forced:
-            script.append(('reorg_same', rng.randrange(1, 3)))
-            if rng.random() < 0.6:
-                script.append(('sleep', rng.choice((0, 1, 6))))
-                script.append(('rpc_reorg', 2))
+            if rng.random() < 0.4:
+                script.append(('same_switch', rng.randrange(1, 3)))
+                script.append(('sleep', rng.choice((6, 12))))
+                script.append(('rpc_reorg', 3))
+            else:
+                script.append(('reorg_same', rng.randrange(1, 3)))
+                if rng.random() < 0.6:
+                    script.append(('sleep', rng.choice((0, 1, 6))))
+                    script.append(('rpc_reorg', 2))
         elif r < 0.7:
             ci = rng.randrange(nclients)
             script.append((rng.choice(('sub', 'sub', 'unsub')), ci, rng.randrange(nscripts)))
